@@ -178,6 +178,10 @@ RULES = [
     ("C08-R1", "conservation: each buffered row enters exactly one partition", r1),
     ("C08-R2", "partition key uses every grouping expression; rows carry them", r2),
     ("C08-R3", "one row per partition, aggregates scoped to it, key binding, ordering direction", r3),
+    ("C09-R1", "group rows are separated like any other rows [shared with C09]", lambda ctx: __import__("c09").r1(ctx)),
+    ("C07-R1", "per-group AVG is a real division [shared with C07]", lambda ctx: __import__("c07").r1(ctx)),
+    ("C07-R2", "per-group aggregates: primitive / divisor / sqrt table [shared with C07]", lambda ctx: __import__("c07").r2(ctx)),
+    ("C07-R3", "rows reach the aggregation buffer once, after the filter [shared with C07]", lambda ctx: __import__("c07").r3(ctx)),
 ]
 
 EXPLANATION = (
